@@ -98,6 +98,11 @@ def run(repo: Repo, rep: Report, tier: str) -> None:
     # ---- escape -------------------------------------------------------------------
     check_survival(repo, rep, rm, "escape")
 
+    # ---- nothing received is left unread (never rejects / loses a conformant PDU) ----------
+    from .c03 import check_ready_probe
+    rep.rule("ready-probe", "the readiness probe sees TLS-buffered data on every SSLSocket, whichever side wrapped it")
+    check_ready_probe(repo, rep, "ready-probe")
+
     # ---- termination ----------------------------------------------------------------
     loops = [
         ("pdu", "PDU._generate_items"),
